@@ -69,6 +69,86 @@ def serve_body(run, mod):
     return None
 
 
+def rule_dispatcher_shape(run, mods=MODULES):
+    """A dispatcher keeps serving: its subscription follows the stream, xs.threshold ends the replay phase and leads into the live
+    phase, and the live loop is left only when the stream ends (or by `?`)."""
+    from . import C06 as c06
+    from . import C11 as c11
+    for mod in mods:
+        sv = serve_body(run, mod)
+        if sv is None:
+            run.missing("%s::serve|body" % mod, "serve loop of %s not found" % mod)
+            continue
+        reads = q.live_calls(sv, C.READ)
+        run.exact("Store::read subscriptions in %s::serve" % mod, len(reads), 1, sv.sp)
+        for rd in reads:
+            info = c06.options_info(run, sv, rd.arg(1))
+            fv = None
+            if info["kind"] == "builder" and "follow" in info["setters"] and info["setters"]["follow"][0] is not None:
+                fv = strip(info["setters"]["follow"][0])
+            run.ob("%s::serve|subscription-follows" % mod, fv is not None and fv[0] == "agg" and fv[1].get("variant") in ("On", "WithHeartbeat"), rd.sp,
+                   "the dispatcher's subscription follows the stream (FollowOption::On): %s" % (fmt(fv) if fv is not None else info["kind"]), reason="dispatcher-deaf-to-new-frames")
+        replay, exits = F.replay_phase(sv)
+        recvs = [c for c in q.live_calls(sv, C.MPSC_RECV)]
+        live = [c for c in recvs if replay is not None and not q.same_call(c, replay)]
+        run.ob("%s::serve|two-phases" % mod, replay is not None and len(live) == 1, sv.sp, "one replay recv (compared with xs.threshold) and one live recv (%d / %d)" % (
+            1 if replay is not None else 0, len(live)), reason="mechanism-not-found")
+        if replay is None or len(live) != 1:
+            continue
+        lv = live[0]
+        thr = F.threshold_edges(sv)
+        into_live = sv.reachable_blocks([t for (_, t, _) in thr], removed_blocks=[replay.bb]) if thr else set()
+        run.ob("%s::serve|threshold-ends-replay" % mod, bool(thr) and lv.bb in into_live, sv.blocks[thr[0][0]]["term"]["sp"] if thr else sv.sp,
+               "on xs.threshold the replay loop is left and the live phase begins (the live recv is reached without another replay recv)", reason="replay-never-ends")
+        ok_e = q.call_result_edges(sv, lv, ok=True)
+        exits2 = c11.loop_exit_edges(sv, lv.bb, [t for (_, t, _) in ok_e]) if ok_e else []
+        bad = []
+        for (bb, t, lab, m, si) in exits2:
+            cond = strip(si["cond"])
+            is_try = cond[0] == "call" and cond[1].fn.endswith("Try::branch") and (set(m) if isinstance(m, tuple) else {m}) <= {"Break"}
+            if not is_try:
+                bad.append(sv.blocks[bb]["term"]["sp"])
+        run.ob("%s::serve|live-loop-keeps-serving" % mod, bool(ok_e) and not bad, lv.sp,
+               "after handling a frame the dispatcher waits for the next one: the live loop is left only when the stream ends or by `?` (%s)" % bad, reason="dispatcher-stops-serving")
+
+
+def rule_generator_compaction(run):
+    """Generators: a historical `<name>.spawn` frame is recorded during replay under (context, name), so the generator is
+    started again after a restart; a later `.spawn.error` of that name replaces the record (nothing is restarted for it)."""
+    mod = "xs::generators::serve"
+    sv = serve_body(run, mod)
+    if sv is None:
+        run.missing("%s::serve|body" % mod, "serve loop not found")
+        return
+    replay, exits = F.replay_phase(sv)
+    ins = [c for c in sv.calls() if c.bb in sv.live_blocks() and c.fn.endswith("::insert") and "HashMap" in c.fn and "xs::store::Frame" in c.fnx
+           and not q.dominated(sv, c.bb, via_edges=exits)]
+    run.exact("compaction inserts in the generator replay loop", len(ins), 1, sv.sp)
+    if not ins:
+        return
+    i0 = ins[0]
+    sp_e = F.suffix_tests(sv, ".spawn")
+    er_e = F.suffix_tests(sv, ".spawn.error")
+    sp_only = [e for e in sp_e if e not in er_e]
+    reach = sv.reachable_blocks([t for (_, t, _) in sp_only], removed_edges=er_e, removed_blocks=[replay.bb] if replay is not None else []) if sp_only else set()
+    run.ob("%s::serve|compaction|spawn-recorded" % mod, bool(sp_only) and i0.bb in reach, i0.sp,
+           "a frame whose topic ends with `.spawn` reaches the compaction insert without also having to end with `.spawn.error`", reason="generator-not-restored")
+    key = i0.arg(1)
+    strips = set()
+    for o in list(q.origins(key)) + [key]:
+        for y in walk(o):
+            if y[0] == "call" and y[1].fn == "core::str::<impl str>::strip_suffix":
+                strips |= set(q.const_strs(y[2][1]))
+            if y[0] == "agg" and y[1].get("def"):
+                cb = run.facts.body(y[1]["def"])
+                if cb is not None:
+                    for cc in cb.calls():
+                        if cc.fn == "core::str::<impl str>::strip_suffix":
+                            strips |= set(q.const_strs(cc.arg(1)))
+    run.ob("%s::serve|compaction|key-name" % mod, {".spawn", ".spawn.error"} <= strips and any(q.last_field(y) == "context_id" for y in walk(key)), i0.sp,
+           "the record is keyed by (frame.context_id, topic without `.spawn` / `.spawn.error`): %s" % sorted(strips), reason="generator-not-restored")
+
+
 def r2(run):
     for mod in MODULES:
         sv = serve_body(run, mod)
@@ -196,6 +276,8 @@ def r5(run):
 RULES = [
     ("R-C17-5", "commands: every historical .define is re-registered in order during replay (latest valid definition restored; shared with R-C19-6)", r5),
     ("R-C17-1", "every registry of the handlers / generators / commands modules is keyed by (context_id, name)", r1),
+    ("R-C17-6", "dispatchers keep serving: following subscription, xs.threshold ends the replay and starts the live phase, the live loop ends only with the stream", rule_dispatcher_shape),
+    ("R-C17-7", "generators: historical .spawn frames are recorded under (context, name) during replay (a later .spawn.error replaces the record)", rule_generator_compaction),
     ("R-C17-2", "user code (handlers, generators, command calls) is started only after the replay phase; history is compacted, not executed", r2),
     ("R-C17-3", "handler compaction drops an entry only on a matching handler_id and restarts survivors in register-id order", r3),
     ("R-C17-4", "the binary starts all three modules and the API on clones of one Store", r4),
